@@ -136,7 +136,7 @@ func ruleTwinMaps(c *Ctx) {
 }
 
 var twinOK = map[string]string{
-	"pkg/core/storage.(*MemCachedStore).GetStorageChanges#return s.stor": "by definition: the storage change set of a block is the stor map alone (it feeds the MPT batch)",
-	"pkg/core/storage.(*MemoryStore).putChangeSet#maps.Copy(s.mem, puts)":   "the two halves of a change set arrive as two parameters; this statement and the next one are the twin pair (puts -> mem, stores -> stor)",
+	"pkg/core/storage.(*MemCachedStore).GetStorageChanges#return s.stor":     "by definition: the storage change set of a block is the stor map alone (it feeds the MPT batch)",
+	"pkg/core/storage.(*MemoryStore).putChangeSet#maps.Copy(s.mem, puts)":    "the two halves of a change set arrive as two parameters; this statement and the next one are the twin pair (puts -> mem, stores -> stor)",
 	"pkg/core/storage.(*MemoryStore).putChangeSet#maps.Copy(s.stor, stores)": "see the previous row",
 }
